@@ -89,6 +89,8 @@ def ast_from_dump(b, exp_path, env=None):
     txt = re.sub(r"\(\*.*?\*\)", " ", txt, flags=re.S)
     order = [m.group(1).lower() for m in re.finditer(r"(?im)^\s*SCHEMA\s+([A-Za-z0-9_]+)\s*;", txt)]
     schemas.sort(key=lambda s: order.index(s[0]) if s[0] in order else len(order))
+    if len(schemas) == 1:     # a single schema cannot depend on another one: exp2cxx's pass structure is modelled
+        schemas = [(n, [(ln, re.sub(r" 1$", " 0", l) if not l.startswith("other") else l) for ln, l in ds]) for n, ds in schemas]
     return [(n, [l for _, l in sorted(ds, key=lambda p: p[0])]) for n, ds in schemas]
 
 
@@ -106,11 +108,14 @@ def ast_from_gen(f):
     out = []
     for s in f.schemas:
         ds = []
+        # foreign: the schema has an interface clause, so the declaration may (transitively) depend on an
+        # enumeration/select/supertype of another schema — the only way multpass.c can defer it to a later pass
+        fo = int(bool(s.references))
         for tag, key, d in s.symbol_keys():
             if tag == "entity":
-                ds.append(f"ent {key} {int(d.foreign)}")
+                ds.append(f"ent {key} {fo}")
             elif tag == "type":
-                ds.append(f"type {key} {d.kind} {int(d.has_head)} {int(d.foreign)}")
+                ds.append(f"type {key} {d.kind} {int(d.has_head)} {fo}")
             else:
                 ds.append(f"other {key}")
         out.append((s.name, ds))
